@@ -46,12 +46,33 @@ const (
 	BodyEOLEndstream BodyKind = "eolendstream"
 	BodyEndobj       BodyKind = "endobj"    // contains the word endobj (also directly after an EOL)
 	BodyMidHeader    BodyKind = "midheader" // contains "7 0 obj" in the middle of a line (never line-initial)
-	BodyEmpty        BodyKind = "empty"     // zero bytes
-	BodyBig          BodyKind = "big"       // > 1024 bytes (the Writer emits the dictionary before the data is complete)
+	// BodyTrailerLine .. BodyEOFLine contain a line that starts with the word
+	// trailer / xref / startxref / %%EOF (permitted stream content; the
+	// sequential scan takes such a line for a marker).  A stream with such a
+	// body is never filtered and is followed by a small scalar object.
+	BodyTrailerLine   BodyKind = "trailerline"
+	BodyXrefLine      BodyKind = "xrefline"
+	BodyStartxrefLine BodyKind = "startxrefline"
+	BodyEOFLine       BodyKind = "eofline"
+	BodyEmpty         BodyKind = "empty" // zero bytes
+	BodyBig           BodyKind = "big"   // > 1024 bytes (the Writer emits the dictionary before the data is complete)
 )
 
 // AllBodies lists every body kind.
-var AllBodies = []BodyKind{BodyPlain, BodyBinary, BodyEOL, BodyCR, BodyEndstream, BodyEOLEndstream, BodyEndobj, BodyMidHeader, BodyEmpty, BodyBig}
+var AllBodies = []BodyKind{BodyPlain, BodyBinary, BodyEOL, BodyCR, BodyEndstream, BodyEOLEndstream, BodyEndobj, BodyMidHeader,
+	BodyTrailerLine, BodyXrefLine, BodyStartxrefLine, BodyEOFLine, BodyEmpty, BodyBig}
+
+// MarkerBodies are the body kinds with a line-initial trailer keyword.
+var MarkerBodies = []BodyKind{BodyTrailerLine, BodyXrefLine, BodyStartxrefLine, BodyEOFLine}
+
+func isMarkerBody(k BodyKind) bool {
+	for _, m := range MarkerBodies {
+		if k == m {
+			return true
+		}
+	}
+	return false
+}
 
 // AllFilters lists the filter names DocOptions.Filters understands.
 var AllFilters = []string{"Flate", "LZW", "ASCIIHex", "ASCII85", "RunLength"}
@@ -234,10 +255,16 @@ func NewDocPlan(seed int64, opt DocOptions) (*DocPlan, error) {
 	g := &valGen{rng: rng, refs: func() pdf.Object { return refOf(rng.Intn(n + 1)) }}
 	p.objs = append(p.objs, planObj{kind: "dict", val: pdf.Dict{"Type": pdf.Name("Pages"), "Kids": pdf.Array{}, "Count": pdf.Integer(0)}})
 	kinds := []string{"dict", "dict", "array", "int", "real", "name", "string", "bool", "null", "ref", "stream", "stream", "stream"}
+	afterMarker := false
 	for i := 0; i < n; i++ {
 		k := kinds[rng.Intn(len(kinds))]
 		if i < len(kinds) && n >= len(kinds) {
 			k = kinds[i] // big documents contain every kind
+		}
+		if afterMarker {
+			// a small object directly after a stream with a marker-like line
+			k = []string{"int", "null", "name", "bool"}[rng.Intn(4)]
+			afterMarker = false
 		}
 		if i < opt.MinStreams {
 			k = "stream"
@@ -269,7 +296,8 @@ func NewDocPlan(seed int64, opt DocOptions) (*DocPlan, error) {
 			po.dict = pdf.Dict{"K": g.scalar(), "Sub": g.dict(1)}
 			po.bodyK = opt.Bodies[rng.Intn(len(opt.Bodies))]
 			po.body = g.body(po.bodyK, opt.MaxBody)
-			if len(opt.Filters) > 0 {
+			afterMarker = isMarkerBody(po.bodyK)
+			if len(opt.Filters) > 0 && !afterMarker {
 				for j := rng.Intn(3); j > 0; j-- {
 					po.filters = append(po.filters, opt.Filters[rng.Intn(len(opt.Filters))])
 				}
@@ -616,6 +644,16 @@ func (g *valGen) body(k BodyKind, max int) []byte {
 		b = append(b, text(n/2+1)...)
 	case BodyEndobj:
 		b = append(text(n/2), []string{"endobj", "\nendobj\n", " endobj "}[g.rng.Intn(3)]...)
+		b = append(b, text(n/2+1)...)
+	case BodyTrailerLine, BodyXrefLine, BodyStartxrefLine, BodyEOFLine:
+		word := map[BodyKind]string{BodyTrailerLine: "trailer", BodyXrefLine: "xref", BodyStartxrefLine: "startxref", BodyEOFLine: "%%EOF"}[k]
+		eol := []string{"\n", "\r\n", "\r"}[g.rng.Intn(3)]
+		rest := []string{eol, " dictionaries hold the /Root entry" + eol, eol + "<< /Size 3 >>" + eol, " "}[g.rng.Intn(4)]
+		if g.rng.Intn(3) > 0 {
+			b = append(text(n/2+1), eol...)
+		}
+		b = append(b, word...) // at the start of the body or of a line
+		b = append(b, rest...)
 		b = append(b, text(n/2+1)...)
 	case BodyMidHeader:
 		b = append(text(n/2+1), "x 7 0 obj (not an object) endobj "...)
